@@ -62,6 +62,8 @@ struct RunResult {
     size_t nedges_peak = 0;
     std::vector<std::string> story;
     std::vector<uint32_t> astates;     // distinct abstract states visited
+    std::vector<unsigned long> hits;    // compute-table hits per step
+    std::string variant;                // text of the fault-position variant that failed (if any)
 };
 
 static void runPlan(const Plan &P, RunResult &R, bool cold = false)
@@ -79,6 +81,7 @@ static void runPlan(const Plan &P, RunResult &R, bool cold = false)
     R.obs = W.obs;
     R.state = W.eh.h;
     R.story = W.story;
+    R.hits = W.hits_per_step;
     R.astates.assign(W.astates.begin(), W.astates.end());
 }
 
@@ -132,10 +135,109 @@ static bool compareObs(const RunResult &A, const RunResult &B, bool compareCount
 
 // Full evaluation of one plan for a property: primary run plus the
 // differential companion where the property asks for one.
+// Fault-position sweeps (enumeration of fault positions within a sampled
+// plan, not of plans).  A variant is an ordinary, self-contained plan marked
+// "nosweep"; when one fails it - not the plan it was derived from - becomes
+// the replay file and is minimised.
+static bool sweepWanted(const Plan &P, bool thorough, unsigned &budget)
+{
+    if (P.nosweep) return false;
+    const unsigned every = thorough ? 3 : 12;
+    budget = thorough ? 24 : 6;
+    return (P.seed >> 7) % every == 0;
+}
+static bool g_thorough = false;
+
 static void evalPlan(const Plan &P, RunResult &R)
 {
     runPlan(P, R);
     if (!R.ok || R.abandoned) return;
+    if (P.prop == "C07") {
+        // a plan that drops exactly the k-th hit of a step must observe what
+        // the same plan without that drop observes
+        bool hasK = false;
+        for (const Step &s : P.steps) if (s.dropk) hasK = true;
+        if (hasK) {
+            Plan B0 = P;
+            for (Step &s : B0.steps) s.dropk = 0;
+            RunResult B; runPlan(B0, B);
+            std::string why;
+            if (B.ok && !B.abandoned && !compareObs(R, B, true, why)) {
+                R.ok = false; R.cls = "D7:sweep";
+                R.detail = "dropping exactly one compute-table hit changes what the plan observes: " + why;
+                return;
+            }
+        }
+        unsigned budget = 0;
+        if (!hasK && sweepWanted(P, g_thorough, budget)) {
+            Plan P0 = P;
+            for (Step &s : P0.steps) { s.drop = 0; s.dropk = 0; }
+            RunResult R0; runPlan(P0, R0);
+            if (R0.ok && !R0.abandoned) {
+                Rng Q(P.seed ^ 0x5eed);
+                std::vector<size_t> cand;
+                for (size_t i = 0; i < R0.hits.size() && i < P0.steps.size(); i++) if (R0.hits[i]) cand.push_back(i);
+                unsigned done = 0;
+                while (!cand.empty() && done < budget) {
+                    const size_t ci = size_t(Q.below(cand.size()));
+                    const size_t i = cand[ci];
+                    cand.erase(cand.begin() + long(ci));
+                    const unsigned long h = R0.hits[i];
+                    unsigned long ks[3] = { 1, (h + 1) / 2, h };
+                    for (int t = 0; t < 3 && done < budget; t++) {
+                        if (t && ks[t] == ks[t-1]) continue;
+                        Plan V = P0;
+                        V.nosweep = true;
+                        V.steps[i].dropk = unsigned(ks[t]);
+                        RunResult RV; runPlan(V, RV);
+                        done++;
+                        R.stats.fired["sweep_single_drop_variants"]++;
+                        std::string why;
+                        if (!RV.ok) {
+                            R.ok = false; R.cls = RV.cls; R.step = RV.step;
+                            R.detail = "[single-drop variant: hit " + std::to_string(ks[t]) + " of step " + std::to_string(i) + "] " + RV.detail;
+                            R.variant = V.text();
+                            return;
+                        }
+                        if (!RV.abandoned && !compareObs(RV, R0, true, why)) {
+                            R.ok = false; R.cls = "D7:sweep";
+                            R.detail = "dropping hit " + std::to_string(ks[t]) + " of step " + std::to_string(i) + " changes what the plan observes: " + why;
+                            R.variant = V.text();
+                            return;
+                        }
+                    }
+                }
+            }
+        }
+    }
+    if (P.prop == "C17") {
+        unsigned budget = 0;
+        if (sweepWanted(P, g_thorough, budget)) {
+            // destroy a forest / a domain / restart the library after step i
+            Rng Q(P.seed ^ 0x17);
+            static const char* kinds[] = { "killforest", "restart", "killdomain", "killforest" };
+            for (unsigned v = 0; v < budget && !P.steps.empty(); v++) {
+                Plan V = P;
+                V.nosweep = true;
+                Step ins;
+                ins.op = kinds[Q.below(4)];
+                ins.client = 0;
+                for (int j = 0; j < 6; j++) ins.a[j] = uint32_t(Q.next() & 0x7fffffff);
+                ins.seed = Q.next();
+                ins.uid = 100000 + int(v);
+                const size_t pos = 1 + size_t(Q.below(V.steps.size()));
+                V.steps.insert(V.steps.begin() + long(pos), ins);
+                RunResult RV; runPlan(V, RV);
+                R.stats.fired["sweep_lifecycle_variants"]++;
+                if (!RV.ok) {
+                    R.ok = false; R.cls = RV.cls; R.step = RV.step;
+                    R.detail = std::string("[lifecycle variant: ") + ins.op + " inserted at position " + std::to_string(pos) + "] " + RV.detail;
+                    R.variant = V.text();
+                    return;
+                }
+            }
+        }
+    }
     if (P.prop == "C07") {
         Plan V; variantC07(P, V);
         RunResult B; runPlan(V, B, true);
@@ -177,6 +279,7 @@ struct IsoResult {
     int step = -1;
     uint64_t hash = 0;
     std::string line;       // JSON result line produced by the child (no newline)
+    std::string variant;    // a failing fault-position variant of the plan (plan text)
     std::string errtext;    // what the child wrote to stderr (trace, sanitizer report)
 };
 
@@ -184,7 +287,7 @@ static std::string g_scratch = "/tmp";
 // Hang detection is by the CPU time the run's process has consumed, not by
 // wall clock: a normal run needs 0.1-3 CPU seconds however loaded the machine
 // is, a hung one burns CPU without end.  The wall-clock cap is only a backstop.
-static int g_step_timeout = 60;     // CPU seconds for one run
+static int g_step_timeout = 180;    // CPU seconds for one run (a swept run executes up to 25 plans)
 static int g_wall_backstop = 1800;  // wall-clock seconds
 static double g_shrink_secs = 90;    // wall-clock cap for one minimisation
 
@@ -309,6 +412,7 @@ static void evalIsolated(const Plan &P, long idx, IsoResult &I)
         I.detail = jsonField(buf, "detail");
         I.step = atoi(jsonField(buf, "step").c_str());
         I.hash = strtoull(jsonField(buf, "hash").c_str(), nullptr, 16);
+        I.variant = jsonField(buf, "variant");
     }
     I.errtext = readFile(errpath);
     if (I.line.empty()) {
@@ -360,7 +464,9 @@ static void printResult(FILE* out, long idx, const Plan &P, const RunResult &R,
         first = false;
         MEDDLY::verif::probes[i] = 0;
     }
-    fprintf(out, "},\"astates\":[");
+    fprintf(out, "}");
+    if (!R.variant.empty()) fprintf(out, ",\"variant\":\"%s\"", jsonEscape(R.variant).c_str());
+    fprintf(out, ",\"astates\":[");
     for (size_t i = 0; i < R.astates.size() && i < 400; i++) fprintf(out, "%s%u", i ? "," : "", R.astates[i]);
     fprintf(out, "]");
     if (idx >= 0 && idx < 3) {
@@ -379,7 +485,7 @@ static void printResult(FILE* out, long idx, const Plan &P, const RunResult &R,
 static void shrinkPlan(Plan &P, const std::string &cls, int budget)
 {
     auto t0 = std::chrono::steady_clock::now();
-    if (cls.compare(0, 5, "HANG:") == 0) budget = std::min(budget, 24);
+    if (cls.compare(0, 5, "HANG:") == 0) budget = std::min(budget, 6);
     auto still = [&](const Plan &Q) {
         if (std::chrono::duration<double>(std::chrono::steady_clock::now() - t0).count() > g_shrink_secs) { budget = 0; return false; }
         IsoResult R; evalIsolated(Q, -1, R); budget--;
@@ -480,6 +586,7 @@ int main(int argc, char** argv)
         GenOptions go;
         go.prop = argval(argc, argv, "--prop", "C01");
         go.thorough = argflag(argc, argv, "--thorough");
+        g_thorough = go.thorough;
         const uint64_t seed = strtoull(argval(argc, argv, "--seed", "1"), nullptr, 10);
         const long start = atol(argval(argc, argv, "--start", "0"));
         const long count = atol(argval(argc, argv, "--count", "100"));
@@ -498,6 +605,12 @@ int main(int argc, char** argv)
             generatePlan(rs, go, P);
             IsoResult R;
             evalIsolated(P, i, R);
+            if (!R.ok && !R.variant.empty()) {
+                // the failure belongs to a fault-position variant of the plan:
+                // that variant is the failing plan from here on
+                Plan V;
+                if (V.parse(R.variant)) { V.prop = P.prop; V.seed = P.seed; P = V; evalIsolated(P, i, R); }
+            }
             if (R.ok) {
                 printf("%s\n", R.line.c_str());
             } else {
